@@ -68,6 +68,16 @@ impl Prop for C10T {
         let need = msgs.iter().map(|x| x.render().len()).max().unwrap_or(1).max(if IFACES[iface].family == Family::Queue { 64 } else { 1 });
         let ns: Vec<usize> = IFACES[iface].ns.iter().copied().filter(|&n| n >= need).collect();
         let n = if ns.is_empty() { *IFACES[iface].ns.last().unwrap() } else { ns[rng.below(ns.len().min(3))] };
+        // one history in twelve starts with queries whose answers exceed N (several *IDN?)
+        if rng.chance(1, 12) {
+            if let Some(mut fm) = super::common::response_fill_units(&mut rng, m, n + 30) {
+                fm.units.truncate(6);
+                if fm.render().len() <= n {
+                    let at = rng.below(msgs.len() + 1);
+                    msgs.insert(at, fm);
+                }
+            }
+        }
         // sometimes a message whose answers fill the N byte response buffer exactly
         if rng.chance(1, 6) {
             if let Some(fm) = super::common::response_fill_units(&mut rng, m, n) {
@@ -123,7 +133,76 @@ impl Prop for C10T {
             last = mk;
         }
         if r.events.iter().any(|e| matches!(e, Ev::Err(microscpi::Error::TooMuchData) | Ev::Err(microscpi::Error::SystemError))) {
-            return Verdict::Skip("skip:message-or-response-larger-than-N");
+            // Some message's answers do not fit the N byte response buffer.  What (if
+            // anything) is sent for THAT message is left open (DESIGN 7, O1); every other
+            // message must still be answered with exactly its query responses, in order,
+            // and nothing else may be written.
+            let mut over = vec![false; nmsg];
+            let mut cur = 0usize;
+            for e in &r.events {
+                match e {
+                    Ev::Call(k) => cur = *k as usize,
+                    Ev::Err(microscpi::Error::TooMuchData) | Ev::Err(microscpi::Error::SystemError) => over[cur.min(nmsg - 1)] = true,
+                    _ => {}
+                }
+            }
+            if (0..nmsg).any(|i| bounds[i + 1] - bounds[i] > sc.n) || r.remainders.iter().zip(bounds.windows(2)).any(|(rm, w)| *rm < w[1] - w[0]) {
+                return Verdict::Skip("skip:message-or-response-larger-than-N");
+            }
+            let t = exec(&process_exec(sc, bytes.clone(), 0), st);
+            if t.crashed() {
+                return Verdict::Skip("skip:crashed(C05)");
+            }
+            if exec_tokens(&t) != exec_tokens(&r) {
+                return Verdict::Skip("skip:process-executes-differently-from-run(C07/C08)");
+            }
+            match t.results.last() {
+                Some(Some(Err(Tok::Eof))) => {}
+                Some(Some(Ok(()))) => return v("returned-ok", format!("process returned Ok(())\n    {}", brief(&t))),
+                other => return v("ended-without-transport-error", format!("{other:?}\n    {}", brief(&t))),
+            }
+            // expected stream: exact segments for fitting messages, a gap where a message overflowed
+            let mut segs: Vec<Vec<u8>> = vec![Vec::new()];
+            for i in 0..nmsg {
+                if over[i] {
+                    segs.push(Vec::new());
+                } else {
+                    segs.last_mut().unwrap().extend_from_slice(&resp[i]);
+                }
+            }
+            let got = t.responses();
+            let mut pos = 0usize;
+            let mut ok = true;
+            let last = segs.len() - 1;
+            for (i, sg) in segs.iter().enumerate() {
+                if i == 0 {
+                    if got.len() >= sg.len() && got[..sg.len()] == sg[..] {
+                        pos = sg.len();
+                    } else {
+                        ok = false;
+                    }
+                } else if i == last {
+                    if !(got.len() >= pos + sg.len() && got[got.len() - sg.len()..] == sg[..]) {
+                        ok = false;
+                    }
+                } else if !sg.is_empty() {
+                    match got[pos..].windows(sg.len()).position(|w| w == &sg[..]) {
+                        Some(k) => pos += k + sg.len(),
+                        None => ok = false,
+                    }
+                }
+                if !ok {
+                    break;
+                }
+            }
+            st.bump("reach:history_with_answer_larger_than_N");
+            if !ok {
+                return v(
+                    "content",
+                    format!("a message whose answers do not fit N={} bytes disturbed the answers of other messages: written [{}], expected (with a gap only at the overflowing message) {:?}\n    {}", sc.n, crate::scenario::show(&got), segs.iter().map(|x| crate::scenario::show(x)).collect::<Vec<_>>(), brief(&t)),
+                );
+            }
+            return Verdict::Held { nontrivial: false, sig: scenario_sig(sc) };
         }
         // every message and every message's responses must fit (DESIGN 7, O1)
         for i in 0..nmsg {
@@ -342,6 +421,6 @@ impl Prop for C10T {
         ]
     }
     fn probes(&self) -> Vec<&'static str> {
-        vec!["fired:transport_error_positions", "fired:lockstep_controller", "reach:newline_inside_payload", "reach:two_or_more_responding_messages", "reach:fault_between_write_and_flush", "reach:restart_judged"]
+        vec!["fired:transport_error_positions", "fired:lockstep_controller", "reach:newline_inside_payload", "reach:history_with_answer_larger_than_N", "reach:two_or_more_responding_messages", "reach:fault_between_write_and_flush", "reach:restart_judged"]
     }
 }
